@@ -9,6 +9,7 @@ let runners : (string * (string -> string list -> string list list -> (string ->
   ("C02", Drv_c02.run);
   ("C06", Drv_c06.run);
   ("C16", Drv_c16.run);
+  ("C19", Drv_c19.run);
   ("C20", Drv_c20.run);
   ("C07", Drv_c07.run);
   ("C11", Drv_c11.run);
